@@ -137,11 +137,11 @@ def alias_probes(rnd, res, viol, dc, tier, oracle):
             if bad:
                 viol(f"member {k} = {v} and its integer value: {bad}", dict(data, members=want))
                 break
-        # PENDING-FINDING (t3): `hash(a) == hash(b)` for two same-valued members of one class (a == b holds) does NOT hold on the
+        # NOT A CLAIM OF C12 (observation): `hash(a) == hash(b)` for two same-valued members of one class (a == b holds) does NOT hold on the
         # unmodified library - Enum/Flag.__hash__ hash (class, name, value), so `hash(Perm.READ) != hash(Perm.LIST)` although
         # `Perm.READ == Perm.LIST`, and `{Perm.READ: 1}[Perm(b"\x01")]` raises KeyError (the parse yields LIST).  C12 states hash
-        # equality only for two parses of the same underlying value, so the probe stays disabled; reported to the coordinator.
-        if False:  # PENDING-FINDING
+        # equality only for two parses of the same underlying value, so this stricter predicate is not evaluated (it would demand more than the property states).
+        if False:  # stricter than C12
             for g in groups.values():
                 for ka, kb in itertools.combinations(g, 2):
                     if hash(mem[ka]) != hash(mem[kb]):
